@@ -3,7 +3,7 @@ import vpl, os
 from concurrent.futures import ThreadPoolExecutor
 
 LEVEL = "proof"
-LIBS = ["RbcModel.vo", "RbcLemmas.vo", "RbcOrder.vo", "RbcStep.vo", "RbcStep2.vo", "RbcStep3.vo", "RbcAgreement.vo", "RbcBracha.vo"]
+LIBS = ["RbcModel.vo", "RbcLemmas.vo", "RbcOrder.vo", "RbcStep.vo", "RbcStep2.vo", "RbcStep3.vo", "RbcStep4.vo", "RbcAgreement.vo", "RbcBracha.vo"]
 
 def run(res, tier, seed, replay):
     res.cov["rule"] = ("a record = one API call (Broadcast, Deliver, DeliverFrom, setID, recoverID, unsetID) on a real RBC object inside a "
@@ -18,8 +18,8 @@ def run(res, tier, seed, replay):
                         "the transport hands over only messages that the claimed honest sender really sent (authenticated links); "
                         "reordering and duplication are allowed in the theorems",
                         "the digest hash never outputs 0 (the code encodes a missing payload as digest 0)",
-                        "liveness: totality of the agreed digest at ready-quiescence is proved; payload retrieval, deliver-buffer draining and validity "
-                        "for honest senders are checked on the implementation by the oracle, not proved",
+                        "delivery clause: validity and totality at quiescence are proved for schedules without channel switches (FIFO root channel, "
+                        "fifo_skip = 0); with channel switches only totality of the agreed digest is proved, the rest is checked by the oracle",
                         "real time-outs, Sync() and the fault simulation switch of Broadcast are not modelled"]
     vpl.proof_stage(res, LIBS)
     exe = vpl.build_harness("c14")
